@@ -7,11 +7,14 @@
       targets (all the ways of being dead) report 0 and the upgrade returns None; so does a
       [Weak::new()] handle.  State-level over part A's invariant [SInv K b E W m], every [K].
     - The converse ("alive => Some") is FALSE in the crate and in the model: finding F4, exhibited
-      below by computation ([C08_refuted_F4], [C08_refuted_F4_corpus]). *)
+      below by computation ([C08_refuted_F4], [C08_refuted_F4_corpus]).
+    - The exact statement with the exception ([C08_upgrade_iff], [C08_F4_is_the_only_exception]):
+      the count is non-zero exactly when the value is alive, its destruction has not begun and
+      the state is not a known-finding state [KnownF4]. *)
 From Coq Require Import NArith Bool List Lia.
 From stdpp Require Import base list option.
 From RecordUpdate Require Import RecordSet.
-From RC Require Import Hdr Machine RunInd Inv InvP SafeMain SafeProps Pass PassMain SafeFinalPropsA SafeFinalProps.
+From RC Require Import Hdr Machine RunInd Inv InvP SafeMain SafeProps Pass PassMain SafeFinalPropsA SafeFinalProps SafeFinalC08 SafeFinalWeak.
 Import ListNotations RecordSetNotations.
 Local Open Scope N_scope.
 
@@ -132,7 +135,77 @@ Theorem C08_refuted_F4_corpus :
 Proof. exact SafeFinalPropsA.F4_corpus. Qed.
 Print Assumptions C08_refuted_F4_corpus.
 
+(** ** The equivalence, with the exact exception.
+    [KnownF4 m o]: [o] is linked in a tracing / finalization list (mark IL or IQ) while the
+    [dropping] flag is set and [o] is not in the dying set: the F4 situation. *)
+Theorem C08_upgrade_iff :
+  forall (K : conf) (b : bool) (E : list id) (W : list wref) (m : machine) (o : id) (x : obj),
+  SInv K b E W m -> k_weak K = true -> (0 < wrefs m o + cnt_wr o W)%nat -> get m o = Some x ->
+  ((weak_strong_count (WTo o) m).2 <> 0 <->
+   o_box x = BAlloc /\ o_vst x = VLive /\ mem_id o (dead m) = false /\ h_rc (o_hdr x) <> 0 /\
+   ~ (is_in_list_or_queue (hdr_of m o) = true /\ st_dropping m = true /\ mem_id o (dead m) = false)).
+Proof. exact SafeFinalC08.upgrade_iff. Qed.
+Print Assumptions C08_upgrade_iff.
+
+Theorem C08_F4_is_the_only_exception :
+  forall (K : conf) (b : bool) (E : list id) (W : list wref) (m : machine) (o : id) (x : obj),
+  SInv K b E W m -> k_weak K = true -> (0 < wrefs m o + cnt_wr o W)%nat -> get m o = Some x ->
+  o_box x = BAlloc -> o_vst x = VLive -> mem_id o (dead m) = false -> h_rc (o_hdr x) <> 0 ->
+  (weak_strong_count (WTo o) m).2 = 0 ->
+  is_in_list_or_queue (hdr_of m o) = true /\ st_dropping m = true /\ mem_id o (dead m) = false.
+Proof. exact SafeFinalC08.F4_is_the_only_exception. Qed.
+Print Assumptions C08_F4_is_the_only_exception.
+
+(** when the count is non-zero it is the strong count of the target *)
+Theorem C08_upgrade_count :
+  forall (K : conf) (b : bool) (E : list id) (W : list wref) (m : machine) (o : id) (x : obj),
+  SInv K b E W m -> k_weak K = true -> (0 < wrefs m o + cnt_wr o W)%nat -> get m o = Some x ->
+  (weak_strong_count (WTo o) m).2 <> 0 -> (weak_strong_count (WTo o) m).2 = h_rc (o_hdr x).
+Proof. exact SafeFinalC08.upgrade_count. Qed.
+Print Assumptions C08_upgrade_count.
+
+(** ** Weak handles keep nothing alive.  [werase m] forgets everything Weak-related: the Weak
+    variables of the program ([wslots], [wparam]), the Cleanable registrations ([cslots]), the
+    Weak fields and the side records of all objects.  The tracing pass (the function that
+    decides what a collection reclaims) commutes with it, and [refs] (the number of strong
+    handles, the quantity the count invariant and every reclamation decision rest on) does not
+    see it: two states that differ only in Weak-related state give the same result list. *)
+Print werase.
+Theorem C08_no_keepalive_pass :
+  forall (K : conf) (P : prog) (m m' : machine), werase m' = werase m ->
+  (trace_pass K P m').2 = (trace_pass K P m).2 /\
+  werase (trace_pass K P m').1 = werase (trace_pass K P m).1.
+Proof. exact SafeFinalWeak.trace_pass_weak_indep. Qed.
+Print Assumptions C08_no_keepalive_pass.
+
+Theorem C08_no_keepalive_pass_commutes :
+  forall (K : conf) (P : prog) (m : machine),
+  trace_pass K P (werase m) = (werase (trace_pass K P m).1, (trace_pass K P m).2).
+Proof. exact SafeFinalWeak.trace_pass_werase. Qed.
+Print Assumptions C08_no_keepalive_pass_commutes.
+
+Theorem C08_no_keepalive_refs :
+  forall (m m' : machine) (o : id), werase m' = werase m -> refs m' o = refs m o.
+Proof. exact SafeFinalWeak.refs_weak_indep. Qed.
+Print Assumptions C08_no_keepalive_refs.
+
 (** ** Pins *)
+Check C08_upgrade_iff :
+  forall (K : conf) (b : bool) (E : list id) (W : list wref) (m : machine) (o : id) (x : obj),
+  SInv K b E W m -> k_weak K = true -> (0 < wrefs m o + cnt_wr o W)%nat -> get m o = Some x ->
+  ((weak_strong_count (WTo o) m).2 <> 0 <->
+   o_box x = BAlloc /\ o_vst x = VLive /\ mem_id o (dead m) = false /\ h_rc (o_hdr x) <> 0 /\
+   ~ (is_in_list_or_queue (hdr_of m o) = true /\ st_dropping m = true /\ mem_id o (dead m) = false)).
+Check C08_F4_is_the_only_exception :
+  forall (K : conf) (b : bool) (E : list id) (W : list wref) (m : machine) (o : id) (x : obj),
+  SInv K b E W m -> k_weak K = true -> (0 < wrefs m o + cnt_wr o W)%nat -> get m o = Some x ->
+  o_box x = BAlloc -> o_vst x = VLive -> mem_id o (dead m) = false -> h_rc (o_hdr x) <> 0 ->
+  (weak_strong_count (WTo o) m).2 = 0 ->
+  is_in_list_or_queue (hdr_of m o) = true /\ st_dropping m = true /\ mem_id o (dead m) = false.
+Check C08_no_keepalive_pass :
+  forall (K : conf) (P : prog) (m m' : machine), werase m' = werase m ->
+  (trace_pass K P m').2 = (trace_pass K P m).2 /\
+  werase (trace_pass K P m').1 = werase (trace_pass K P m).1.
 Check C08_upgrade_safe :
   forall (K : conf) (b : bool) (E : list id) (W : list wref) (m : machine) (o : id) (sc : N),
   SInv K b E W m -> k_weak K = true -> (0 < wrefs m o + cnt_wr o W)%nat ->
